@@ -29,9 +29,10 @@ Transferred from Props/C20Full.lean (now statements about the code as written):
                                      two pieces of source text, no model in the statement
   `py_legacy_rotate_once_raises`     where the current function raises, the legacy method raises DSDObjectsError (or the same fault)
                                      and the sequence is already rotated
-  `py_strand_length_after_rotate_once`, `py_get_domain_after_rotate_once`, `py_get_paired_loc_after_rotate_once`
-                                     (from `legacy_views_after_rotate_once`) the translated views of the turned object are the
-                                     current API's answers for the turned representation
+  `py_strand_length_after_rotate_once`
+                                     (from `legacy_views_after_rotate_once`) the translated `strand_length` of the turned object
+                                     is the current API's answer for the turned representation; ALL conjuncts of that theorem
+                                     are transferred in Props/PyLegacy2.lean (`py_views_after_rotate_once`)
 -/
 import DsdVerif.Lemmas.PyLegacyRotate
 import DsdVerif.Lemmas.PyLegacyLoop
